@@ -14,7 +14,7 @@ EXPLANATION = (
     'Poll::Pending first keeps the waker (clone stored or sent, AtomicWaker::register) or comes from the Pending edge of a delegated '
     'poll with the same context (one tabled exception: the command ShellRequest whose channel closed is deliberately unwakeable); '
     'R05.d the legacy futures check their slot and store the waker under one lock that the resolve closure also holds; R05.e a legacy '
-    'resolution is followed on every path by taking and waking the stored waker. Output equivalence across hosts is not decided. R05.f no hosting function drops an output it has pulled from a hosted command (the linear rule of C01 restricted to the hosts).')
+    'resolution is followed on every path by taking and waking the stored waker. Output equivalence across hosts is not decided. R05.f no hosting function drops an output it has pulled from a hosted command (the linear rule of C01 restricted to the hosts). R05.g both executor loops run to quiescence (shared with C01). R05.h over the serialized bridge a response resumes exactly the request issued under its id: lookup, resolution and removal of the registry entry use that id inside one lock region (shared with C09 / C08).')
 
 POLL_NAMES = ('poll', 'poll_next', 'poll_unpin', 'poll_next_unpin', 'try_poll', 'try_poll_next', 'poll_fill_buf', 'poll_read',
               'poll_ready', 'poll_flush', 'poll_close')
@@ -95,10 +95,13 @@ def pending_blocks(fn):
 def hand_written_polls(crate):
     out = []
     for f in crate.built:
-        if f.j.get('exp') or f.kind != 'AssocFn':
+        if f.j.get('exp') or f.kind not in ('AssocFn', 'Fn', 'Closure') or f.coroutine:
             continue
         tr = norm(f.assoc.get('trait') or '')
         if (tr == 'core::future::future::Future' and f.name == 'poll') or (tr == 'futures_core::stream::Stream' and f.name == 'poll_next'):
+            out.append(f)
+        elif str(f.locals[0]).startswith('core::task::poll::Poll<') and cx_param(f) is not None:
+            # any other hand-written poll function: Sink::poll_ready / poll_flush / poll_close, AsyncRead::poll_read, a poll_fn closure, a helper
             out.append(f)
     return out
 
@@ -126,6 +129,19 @@ def check(ctx, rep):
     # quiescence (shared with C01 R01.e)
     rep.rule('R05.g', 'both executor loops read both queues and return only after finding them empty again once any task has run', floor=5)
     c01.check_executor_loops(rep, core, rid='R05.g')
+    # R05.h: driven through the serialized bridge, a response reaches the same request as under the typed core: resume() looks the entry up
+    # under the id it was given, resolves exactly that entry and removes it only when it can no longer be resolved, all inside one region of
+    # the registry lock (an entry taken out while it is resolved lets another thread's new effect be announced under the same id), and ids
+    # of live entries never move (shared with C09 R09.a/b, C08 R08.f)
+    from rules.props import c09 as _c09, c06 as _c06
+    rep.rule('R05.h', 'over the bridge a response resumes the request issued under its id: lookup, resolve and removal use that id inside one lock region', floor=5)
+    _res = _c06.method(core, 'crux_core::bridge::registry::ResolveRegistry', 'resume')
+    if _res is None:
+        rep.missing('R05.h', 'ResolveRegistry::resume')
+    else:
+        _c09.check_resume_atomic(rep, 'R05.h', _res)
+        _c09.check_resume(rep, 'R05.h', 'R05.h', core, _res)
+    _c09.check_entry_writers(rep, 'R05.h', core)
     # R05.f: every host hands on every output it pulls from a hosted command: no CommandOutput / effect / event value is dropped on a normal
     # path of a hosting function (the linear rule of C01 restricted to the hosts), whatever the state of the hosted command
     rep.rule('R05.f', 'no host drops an output it has pulled from a hosted command', floor=1)
